@@ -89,6 +89,22 @@ theorem best_is_alive_and_nil_iff_nobody_alive (n : Nat) (tol : Int) (offs : Nat
       have hmem' : e ∈ s.entries := hmem
       rw [he] at hmem'; cases hmem'
 
+/-- **"Believed alive" = what the set was last told.** After any history that only names members,
+a member is in the alive list exactly when the last notification about it said `alive` (never told:
+not alive).  This is what ties every "alive in the set" of the selection theorems to the
+notification history of the property's quantifier. -/
+theorem alive_iff_last_told_alive (n : Nat) (tol : Int) (offs : Nat → Int) (p : Policy) (h : List SetEv)
+    (hm : HistMem n h) (d : Nat) :
+    (runSet (ASet.init n tol offs p) h).isAlive d = (lastTold d h).getD false := by
+  have := isAlive_run d h (ASet.init n tol offs p) (idxInv_init n tol offs p) hm
+  rw [this]
+  rfl
+
+example : (runSet (ASet.init 3 0 (fun _ => 0) .minLast)
+    [.notify 0 true none, .notify 1 true (some 5), .notify 1 false none, .notify 1 true none]).isAlive 1 = true ∧
+    lastTold 1 [.notify 0 true none, .notify 1 true (some 5), .notify 1 false none, .notify (1 : Nat) true none] = some true := by
+  decide
+
 -- the former `time.Hour` sentinel: a node with `add_latency = 1h` (+1 ms measured) is selectable
 example : getMin (runSet (ASet.init 1 0 (fun _ => hour) .minLast) [.notify 0 true (some 1000000)]) none
     = (some 0, hour + 1000000) := by decide
@@ -143,8 +159,13 @@ state reached by an admissible history, one more notification changes the choice
 another node `b'` only if
 * `b` is no longer alive, or
 * `b` has no measurement (yet), or
-* `b'` is not worse than `b` and either better by at least the tolerance, or `b`'s latency is
-  itself below the tolerance (sorting latencies = measurement + offset, after the notification);
+* `b'` **has a measurement**, is not worse than `b`, and is either better by at least the
+  tolerance, or `b`'s latency is itself below the tolerance (sorting latencies = measurement +
+  offset, after the notification), or
+* **interpretation made explicit** — `b'` is alive but has **never been measured**: the code ranks
+  such a node as sorting latency `0` on purpose ("optimistic start-up semantics"), and in that
+  ranking it is better by the tolerance: `0 ≤ b` and (`0 + tol ≤ b` or `b < tol`).  So a small
+  worsening of a measured best can hand the choice to a never-measured alive node (example below);
 and the choice becomes `nil` only when nobody is alive any more.  (The remaining way to change the
 choice is a policy switch, which is a different event.)  `_partial`: mono. -/
 theorem switch_only_when_partial (n : Nat) (tol : Int) (offs : Nat → Int) (p : Policy) (h : List SetEv)
@@ -154,22 +175,47 @@ theorem switch_only_when_partial (n : Nat) (tol : Int) (offs : Nat → Int) (p :
     let s' := (notify s d alive snap).1
     (∀ b b', s.minD = some b → s'.minD = some b' → b ≠ b' →
       (¬ ∃ e ∈ s'.entries, e.d = b) ∨ s'.lat b = none ∨
-      (∃ eb ∈ s'.entries, ∃ eb' ∈ s'.entries, eb.d = b ∧ eb'.d = b' ∧ eb'.sl ≤ eb.sl ∧
-        (eb'.sl + tol ≤ eb.sl ∨ eb.sl < tol))) ∧
+      (∃ eb ∈ s'.entries, ∃ eb' ∈ s'.entries, eb.d = b ∧ eb'.d = b' ∧ s'.lat b' ≠ none ∧
+        eb'.sl ≤ eb.sl ∧ (eb'.sl + tol ≤ eb.sl ∨ eb.sl < tol)) ∨
+      (∃ eb ∈ s'.entries, ∃ eb' ∈ s'.entries, eb.d = b ∧ eb'.d = b' ∧ s'.lat b' = none ∧
+        eb'.sl = 0 ∧ 0 ≤ eb.sl ∧ (0 + tol ≤ eb.sl ∨ eb.sl < tol))) ∧
     (s'.minD = none → s'.entries = []) := by
   intro s hm ok s'
   have hs : SInv s := sinv_run h _ (sinv_init n tol offs p) hok
   have htol : s.tol = tol := runSet_tol h _
+  have hs' : SInv s' := sinv_notify hs ok
+  have hm' : s'.policy.isMin = true := by rw [(notify_frame s d alive snap).2.2.2.1]; exact hm
   constructor
   · intro b b' hb hb' hne
     have := switch_notify hs hm ok hb hb' hne
     rw [htol] at this
-    exact this
+    rcases this with h1 | h2 | ⟨eb, heb, eb', heb', h3, h4, h5, h6⟩
+    · exact Or.inl h1
+    · exact Or.inr (Or.inl h2)
+    · have hlc := hs'.latCons hm' eb' heb'
+      cases hl : s'.lat b' with
+      | some r => exact Or.inr (Or.inr (Or.inl ⟨eb, heb, eb', heb', h3, h4, by simp, h5, h6⟩))
+      | none =>
+        have h0 : eb'.sl = 0 := by rw [hlc, h4]; simp [expSl, hl]
+        rw [h0] at h5 h6
+        exact Or.inr (Or.inr (Or.inr ⟨eb, heb, eb', heb', h3, h4, rfl, h0, h5, h6⟩))
   · intro hn
-    have hs' : SInv s' := sinv_notify hs ok
-    exact hs'.nilEmpty (by rw [(notify_frame s d alive snap).2.2.2.1]; exact hm) hn
+    exact hs'.nilEmpty hm' hn
 
--- non-vacuity: the switch of the example above happens through the third disjunct (70 + 30 ≤ 100)
+-- the interpretation above, concretely (audit witness): tolerance 30; node 0 measured 100 is the
+-- choice, node 1 is alive and never measured; node 0's next sample 101 hands the choice to node 1,
+-- which still has no measurement and ranks as 0.
+example :
+    let h : List SetEv := [.notify 0 true (some 100), .notify 1 true none, .notify 0 true (some 101)]
+    HistOk (ASet.init 2 30 (fun _ => 0) .minLast) h ∧
+    (runSet (ASet.init 2 30 (fun _ => 0) .minLast) (h.take 2)).minD = some 0 ∧
+    (runSet (ASet.init 2 30 (fun _ => 0) .minLast) h).minD = some 1 ∧
+    (runSet (ASet.init 2 30 (fun _ => 0) .minLast) h).lat 1 = none ∧
+    getMin (runSet (ASet.init 2 30 (fun _ => 0) .minLast) h) none = (some 1, 0) := by
+  refine ⟨⟨⟨by decide, by intros; simp⟩, ⟨by decide, by intro _ h; exact (h (by decide)).elim⟩,
+    ⟨by decide, by intros; simp⟩, trivial⟩, by decide, by decide, by decide, by decide⟩
+
+-- non-vacuity: the switch of the earlier example happens through the third disjunct (measured, 70 + 30 ≤ 100)
 example : (notify (runSet (ASet.init 2 30 (fun _ => 0) .minLast) [.notify 0 true (some 100), .notify 1 true (some 80)])
     1 true (some 70)).1.minD = some 1 := by decide
 
@@ -262,6 +308,75 @@ theorem select_returns_alive_of_tried_type (n : Nat) (tol : Int) (offs : Nat →
   · exact Or.inl ⟨ty, hty, h1, h2⟩
   · exact Or.inr h'
 
+/-- **The sets agree with the members' alive flags.** In every reachable group with sets, for each
+of the six health domains a member is in that domain's alive list exactly when its dialer-side
+`Alive` flag for the domain is set (the flag every report sets before the sets are told). -/
+theorem group_sets_agree_with_flags (n : Nat) (tol : Int) (offs : Nat → Int) (p : Policy)
+    (fi : Int) (alive0 : Nat → Nat → Bool) (snap0 : Nat → Nat → Option Int) (h : List GEv)
+    (hm : GHistMem n h) :
+    let g := runG (gNew n tol offs p fi alive0 snap0).1 h
+    g.hasSets = true → ∀ t, t < 6 → ∀ d, d < g.n → (g.sets t).isAlive d = g.alive t d := by
+  intro g
+  obtain ⟨h0, n0⟩ := gminv_gNew n tol offs p fi alive0 snap0
+  exact agree_run h _ h0 (agree_gNew n tol offs p fi alive0 snap0) (by rw [n0]; exact hm)
+
+/-- **Family order and the admitting domain.** A successful selection under random/min is
+* admitted by a domain of the *requested* chain; or
+* only when the call is not strict **and the whole requested chain has nothing selectable**, by a
+  domain of the other family's chain; or
+* the single-node last resort (strict, one-node group, requested chain has nothing selectable):
+  exactly node 0 with latency `dialer.Timeout`.
+"Admitted by `ty`" (`Admitted`): the node is alive in `ty`'s set, is not the excluded one, under
+a min policy it is `GetMinLatency(excluded)` of that set with that latency, and the reported
+admitting domain `x.sel` is `preferAlternateSelectionNetworkType(node, ty)`. -/
+theorem select_family_order (n : Nat) (tol : Int) (offs : Nat → Int) (p : Policy)
+    (fi : Int) (alive0 : Nat → Nat → Bool) (snap0 : Nat → Nat → Option Int) (h : List GEv)
+    (hm : GHistMem n h) (rnd : Nat → Nat → Nat → Nat) (t : NetType) (strict : Bool)
+    (excl : Option Nat) (x : SelOk) :
+    let g := runG (gNew n tol offs p fi alive0 snap0).1 h
+    g.policy ≠ .fixed → select rnd g t strict excl = .ok x →
+    (∃ ty ∈ chain t g.policy, Admitted g excl ty x) ∨
+    (strict = false ∧ (∀ ty ∈ chain t g.policy, ∀ e ∈ (g.sets ty.index).entries, excl = some e.d) ∧
+      ∃ ty ∈ chain t.flip g.policy, Admitted g excl ty x) ∨
+    (strict = true ∧ g.n = 1 ∧ x = ⟨0, dialTimeout, (preferAlt g 0 t).index⟩ ∧
+      ∀ ty ∈ chain t g.policy, ∀ e ∈ (g.sets ty.index).entries, excl = some e.d) := by
+  intro g hp hsel
+  have hg := gminv_after n tol offs p fi alive0 snap0 h hm
+  exact select_ok_full hp (fun ty => (hg.sets ty).1.bestIn) hsel
+
+/-- the admitting domain handed to callers: the consulted domain itself when the node's flag for it
+is set, else the same domain of the other family when that flag is set, else the consulted domain -/
+theorem admitting_domain_spec (g : Group) (d : Nat) (t : NetType) :
+    (preferAlt g d t = t ∨ preferAlt g d t = t.flip) ∧
+    (g.alive t.index d = true ∨ g.alive t.flip.index d = true → g.alive (preferAlt g d t).index d = true) ∧
+    (g.alive t.index d = true → preferAlt g d t = t) :=
+  preferAlt_spec g d t
+
+/-- **Whenever a consulted domain has a selectable node, a node is returned** (no other error can
+occur under random/min). -/
+theorem select_ok_of_selectable (n : Nat) (tol : Int) (offs : Nat → Int) (p : Policy)
+    (fi : Int) (alive0 : Nat → Nat → Bool) (snap0 : Nat → Nat → Option Int) (h : List GEv)
+    (hm : GHistMem n h) (rnd : Nat → Nat → Nat → Nat) (t : NetType) (strict : Bool) (excl : Option Nat) :
+    let g := runG (gNew n tol offs p fi alive0 snap0).1 h
+    g.policy ≠ .fixed →
+    (∃ ty ∈ tried g t strict, ∃ e ∈ (g.sets ty.index).entries, excl ≠ some e.d) →
+    ∃ x, select rnd g t strict excl = .ok x := by
+  intro g hp ⟨ty, hty, e, he, hne⟩
+  have hg := gminv_after n tol offs p fi alive0 snap0 h hm
+  have hbi := fun ty => (hg.sets ty).1.bestIn
+  cases hsel : select rnd g t strict excl with
+  | ok x => exact ⟨x, rfl⟩
+  | error er =>
+    exfalso
+    rcases select_error_cases hp hbi hsel with h1 | ⟨_, hn0⟩
+    · subst h1
+      have := (select_noAlive_iff hp hbi).mp hsel
+      exact hne (this.2.2 ty hty e he)
+    · obtain ⟨hmi, hnn⟩ := hg.sets ty.index
+      obtain ⟨hlt, _⟩ := idx_of_mem hmi.idx he
+      rw [hnn, hn0] at hlt
+      exact absurd hlt (Nat.not_lt_zero _)
+
 /-- **The excluded node is returned only under `fixed` or as the single-node last resort.** -/
 theorem excluded_never_returned_unless_fixed_or_last_resort (n : Nat) (tol : Int) (offs : Nat → Int)
     (p : Policy) (fi : Int) (alive0 : Nat → Nat → Bool) (snap0 : Nat → Nat → Option Int) (h : List GEv)
@@ -334,22 +449,26 @@ theorem group_invariant_all_histories_partial (n : Nat) (tol : Int) (offs : Nat 
     GInv (runG (gNew n tol offs p fi alive0 snap0).1 h) :=
   ginv_run h _ (ginv_gNew n tol offs p fi alive0 snap0) hok
 
-/-- **min policies at group level**: the node returned without exclusion is the cached best of
-the admitting domain, and no alive measured node of that domain beats the returned latency by the
-tolerance or more.  `_partial`: `GInv g` (mono, by `group_invariant_all_histories_partial`). -/
+/-- **min policies at group level, with or without exclusion**: the answer is either the
+single-node last resort (structurally: strict, one node, requested chain has nothing selectable) or
+`GetMinLatency(excluded)` of an admitting domain, and then no alive measured node of that domain
+other than the excluded one beats the returned latency by the tolerance or more.
+`_partial`: `GInv g` (mono, by `group_invariant_all_histories_partial`). -/
 theorem select_min_is_unbeaten_partial {rnd : Nat → Nat → Nat → Nat} {g : Group} {t : NetType}
-    {strict : Bool} (hg : GInv g) (hm : g.policy.isMin = true) {x : SelOk}
-    (h : select rnd g t strict none = .ok x) (hnl : x.lat ≠ dialTimeout) :
-    ∃ ty ∈ tried g t strict, getMin (g.sets ty.index) none = (some x.d, x.lat) ∧
-      ∀ e ∈ (g.sets ty.index).entries, (g.sets ty.index).lat e.d ≠ none →
-        ¬ beats (g.sets ty.index).tol e.sl x.lat := by
+    {strict : Bool} {excl : Option Nat} (hg : GInv g) (hm : g.policy.isMin = true) {x : SelOk}
+    (h : select rnd g t strict excl = .ok x) :
+    (∃ ty ∈ tried g t strict, getMin (g.sets ty.index) excl = (some x.d, x.lat) ∧
+      ∀ e ∈ (g.sets ty.index).entries, (g.sets ty.index).lat e.d ≠ none → excl ≠ some e.d →
+        ¬ beats (g.sets ty.index).tol e.sl x.lat) ∨
+    (strict = true ∧ g.n = 1 ∧ x.d = 0 ∧ x.lat = dialTimeout ∧
+      ∀ ty ∈ chain t g.policy, ∀ e ∈ (g.sets ty.index).entries, excl = some e.d) := by
   have hp : g.policy ≠ .fixed := by intro h; rw [h] at hm; cases hm
   have hhs : g.hasSets = true := by rw [hg.hasSets]; cases hq : g.policy <;> simp_all [needsAlive]
-  rcases select_ok hp (fun ty => (hg.sets hhs ty).1.bestIn) h with ⟨ty, hty, _, _, h3⟩ | ⟨_, _, _, hl, _⟩
+  rcases select_ok hp (fun ty => (hg.sets hhs ty).1.bestIn) h with ⟨ty, hty, _, _, h3⟩ | hlr
   · have hgm := h3 hm
     have hpol : (g.sets ty.index).policy.isMin = true := by rw [(hg.sets hhs ty.index).2.1]; exact hm
-    exact ⟨ty, hty, hgm, getMin_tolerance (hg.sets hhs ty.index).1 hpol hgm⟩
-  · exact absurd hl hnl
+    exact Or.inl ⟨ty, hty, hgm, getMin_tolerance_excl (hg.sets hhs ty.index).1 hpol hgm⟩
+  · exact Or.inr hlr
 
 -- non-vacuity: a two-node `min` group, tolerance 30; node 0 measured 100 on tcp4, then node 1
 -- measured 60: the invariant's hypotheses hold and the selection really switches to node 1.
@@ -359,6 +478,35 @@ example : GHistOk (gNew 2 30 (fun _ => 0) .minLast 0 (fun _ _ => true) (fun _ _ 
       [.notify 2 0 true (some 100), .notify 2 1 true (some 60)]) ⟨false, false, false, .unset⟩ true none).toOption
       = some ⟨1, 60, 2⟩ := by
   refine ⟨⟨fun _ => ⟨by decide, by intros; simp⟩, fun _ => ⟨by decide, by intros; simp⟩, trivial⟩, by decide⟩
+
+/-! ## E. sample histories: `mono` discharged
+
+`World` = the group together with the dialer-side collections (`LatenciesN`, moving average) and
+backoff penalties of its members; the snapshots handed to the sets are *computed* from the samples.
+World events: a successful probe with its latency, a failure/traffic report after which the sets
+are told alive/dead, a penalty change, a policy switch.  This is exactly what the driver executes
+(`stepWcb`). -/
+
+/-- **Every history of positive samples, reports, penalty changes and policy switches keeps the
+full tolerance invariant** — no `mono` hypothesis: it is a consequence (`measurement_once_always…`
+composed along the history).  Hypotheses: events name members; latency samples are positive
+durations (≥ 1 ns).  Hence `select_min_is_unbeaten_partial`, `min_policy_returns_unbeaten_alive_partial`
+and the set-level tolerance bound apply to every such world; what lies outside is only a restore of
+an emptier health snapshot (reload) or a 0 ns sample under `min_moving_avg`. -/
+theorem tolerance_invariant_all_sample_histories (n : Nat) (tol : Int) (offs : Nat → Int) (p : Policy)
+    (fi : Int) (alive0 : Nat → Nat → Bool) (colls0 : Nat → Nat → Coll) (pens0 : Nat → Nat → Int)
+    (h : List WEv) (hok : WHistOk n h) :
+    GInv (runW (worldNew n tol offs p fi alive0 colls0 pens0) h).g :=
+  (winv_run h _ (winv_new n tol offs p fi alive0 colls0 pens0) hok).ginv
+
+-- non-vacuity: node 0 probed 100 then node 1 probed 60 on tcp4, tolerance 30: hypotheses hold, choice switches
+example : WHistOk 2 [.sample 2 0 100, .sample 2 1 60] ∧
+    (select (fun _ _ _ => 0) (runW (worldNew 2 30 (fun _ => 0) .minLast 0 (fun _ _ => true)
+      (fun _ _ => Coll.empty) (fun _ _ => 0)) [.sample 2 0 100, .sample 2 1 60]).g
+      ⟨false, false, false, .unset⟩ true none).toOption = some ⟨1, 60, 2⟩ := by
+  constructor
+  · simp [WHistOk]
+  · decide
 
 /-- **`chooseProxyDialer`'s selection** (retry the other family, non-strict, on "no alive"): the
 answer is an answer of one of the two `SelectWithExclusionResult` calls, so everything above
